@@ -682,10 +682,20 @@ impl<'tcx> Extractor<'tcx> {
                         }
                     }
                 }
+                // named constant (`const MAX: usize = 64;`): evaluate it when it is a local, non-generic scalar
+                let mut evaluated = "null".to_string();
+                if uv.promoted.is_none() && uv.def.is_local() && uv.args.is_empty() {
+                    if let Ok(cv) = tcx.const_eval_poly(uv.def) {
+                        if let Some(j) = self.constval_json(&cv, ty) {
+                            evaluated = j;
+                        }
+                    }
+                }
                 Some(format!(
-                    "{{\"uneval\":{},\"lits\":[{}]}}",
+                    "{{\"uneval\":{},\"lits\":[{}],\"val\":{}}}",
                     js(&tcx.def_path_str(uv.def)),
-                    lits.join(",")
+                    lits.join(","),
+                    evaluated
                 ))
             }
         };
